@@ -1346,12 +1346,10 @@ def judge(case, out, site, idx, all_sites):
                 return ('invalid', ['scope'])
             if site.has('destroy'):
                 return ('outside', 'scope together with destroy')
-            if site.ctype['base'] in ('GDestroyNotify', 'GAsyncReadyCallback'):
-                return ('outside', 'well-known callback type')
-            later = case['params'][[p['name'] for p in case['params']].index(site.pname) + 1:]
-            if any((not p.get('ellipsis')) and p['type']['base'] == 'GDestroyNotify' for p in later):
-                return ('outside', 'a GDestroyNotify parameter follows')
-            return ('valid', [('scope=%s' % opts[0], a.get('scope') == opts[0])])
+            # the statement makes no exception for well-known callback types or for a GDestroyNotify that
+            # follows: a valid (scope X) has to be written as scope="X" (scope_override_class names the
+            # cause when pass 3 or another parameter's (destroy) replaces it)
+            return ('valid:scope', [('scope=%s' % opts[0], a.get('scope') == opts[0])])
         if len(opts) != 1:
             return ('outside', 'malformed')
         ref = opts[0]
@@ -1363,25 +1361,43 @@ def judge(case, out, site, idx, all_sites):
     return ('outside', 'annotation not judged')
 
 
-def heuristic_choice(case, site, name):
-    """what the callback autodetection (pass 3) would pick for closure/destroy of this parameter"""
-    ps = [p for p in case['params'] if not p.get('ellipsis')]
-    names = [p['name'] for p in ps]
-    if site.pname not in names:
+def autodetected_ref(out, site, name):
+    """What `_pass3_callable_callbacks` attached to this callback parameter, read off the REAL output:
+    the index written in the GIR attribute `name` (closure | destroy) when it points at a LATER
+    parameter of the kind the autodetection picks (destroy: a parameter whose GIR type is
+    GLib.DestroyNotify; closure: a gpointer parameter whose name ends in 'data'); else None.
+    Judged on the GIR, not on the C spelling: `GDestroyNotify *d`, `GDestroyNotify d[3]` and a
+    (type GLib.DestroyNotify) override all resolve to the callback and are picked up by pass 3."""
+    v = attrs_of(site.node).get(name)
+    if v is None or not v.isdigit() or site.index is None:
         return None
-    pick = None
-    for p in ps[names.index(site.pname) + 1:]:
-        shape, depth = site_class(p['type'])
-        if shape == 'callback' and depth == 0:
-            if p['type']['base'] == 'GDestroyNotify':
-                if name == 'destroy':
-                    pick = p['name']
+    k = int(v)
+    if k <= site.index or k >= len(out['params']):
+        return None
+    tgt = out['params'][k]
+    tname = ty_name(tgt['ty'])
+    if name == 'destroy':
+        return k if tname == 'GLib.DestroyNotify' else None
+    return k if tname == 'gpointer' and (attrs_of(tgt).get('name') or '').endswith('data') else None
+
+
+def scope_override_class(case, out, site, all_sites):
+    """Why a valid (scope X) on a callback parameter is not the scope written to the GIR: the exact
+    failure class, or None when none of the known mechanisms explains it."""
+    got = attrs_of(site.node).get('scope')
+    if got == 'notified' and autodetected_ref(out, site, 'destroy') is not None:
+        return 'valid-overridden-by-autodetection:scope'      # second loop of pass 3
+    if got == 'async' and ty_name(site.node['ty']) in ('GLib.DestroyNotify', 'Gio.AsyncReadyCallback'):
+        return 'valid-overridden-by-autodetection:scope'      # first loop of pass 3 (well-known types)
+    if got == 'notified':
+        order = [p['name'] for p in case['params'] if not p.get('ellipsis')]
+        for s in all_sites:
+            if s is site or s.ctype is None or s.pname not in order or site.pname not in order:
                 continue
-            break
-        if name == 'closure' and shape == 'anyptr' and depth == 0 and p['type']['base'] in ('gpointer', 'gconstpointer') \
-                and p['name'].endswith('data'):
-            pick = p['name']
-    return pick
+            if s.opts('destroy') == [site.pname] and SHAPES[s.ctype['base']] == 'callback' \
+                    and order.index(s.pname) > order.index(site.pname):
+                return 'valid-overridden-by-destroy-reference:scope'
+    return None
 
 
 def crash_class(case, res):
@@ -1464,10 +1480,58 @@ PENDING_FINDINGS = {
         'an explicit (closure X) is overwritten in pass 3 by the user_data autodetection (a later gpointer *data)',
     'valid-overridden-by-autodetection:destroy':
         'an explicit (destroy X) is overwritten in pass 3 by a later GDestroyNotify parameter',
+    'valid-overridden-by-autodetection:scope':
+        'an explicit (scope X) on a callback parameter is overwritten in pass 3: by "notified" when a later '
+        'GDestroyNotify parameter is autodetected as its destroy notify, by "async" when the parameter itself is a '
+        'GDestroyNotify / GAsyncReadyCallback',
+    'valid-overridden-by-destroy-reference:scope':
+        'an explicit (scope X) on callback parameter P is overwritten by "notified" when a LATER parameter carries '
+        '(destroy P) (_apply_annotations_param_callback sets destroy_param.scope unconditionally; with the two '
+        'parameters in the other order the explicit scope wins)',
 }
 for _shape in ('enum', 'object', 'record'):
     for _ann in ('nullable', 'allow-none', 'transfer/none', 'transfer/full'):
         PENDING_FINDINGS['by-value-%s-accepts-%s' % (_shape, _ann)] = _BYVAL % (_ann.replace('/', ' '), _shape)
+
+
+# Proposed smaller key set (one key per CAUSE in /repo, see the report): old key -> merged key.  A merged
+# key is used as soon as known_findings.json lists it (ctx.is_known); until then the old keys above
+# keep working, so the integrator can switch the file in one step.
+_BYVAL_MERGED = 'by-value-non-basic-accepts-pointer-annotation'
+MERGED_KEYS = {
+    'pointer-to-basic-alias-rejects-allow-none': 'pointer-to-basic-alias-rejects-nullable',
+    'not-optional-changes-nullable:param': 'not-optional-treated-as-not-nullable',
+    'not-optional-clears-nullable:param': 'not-optional-treated-as-not-nullable',
+    'not-optional-keeps-optional': 'not-optional-treated-as-not-nullable',
+    'valid-overridden-by-autodetection:closure': 'explicit-callback-annotation-overridden-by-autodetection',
+    'valid-overridden-by-autodetection:destroy': 'explicit-callback-annotation-overridden-by-autodetection',
+    'valid-overridden-by-autodetection:scope': 'explicit-callback-annotation-overridden-by-autodetection',
+    'crash:reference-to-instance-parameter': 'crash:reference-to-parameter-without-index',
+    'crash:reference-to-gerror-parameter': 'crash:reference-to-parameter-without-index',
+}
+for _k in list(PENDING_FINDINGS):
+    if _k.startswith('by-value-'):
+        MERGED_KEYS[_k] = _BYVAL_MERGED
+MERGED_FINDINGS = {
+    _BYVAL_MERGED:
+        '(nullable), (allow-none), (transfer none) or (transfer full) on a by-value enum, flags, struct, union, boxed or '
+        'object (pointer depth 0, direction in or return value) is accepted silently and written to the GIR; the '
+        'statement requires a warning and unchanged output (_is_pointer_type treats everything that is not a basic '
+        'type as a pointer)',
+    'pointer-to-basic-alias-rejects-nullable':
+        '(nullable) / (allow-none) on a pointer to an alias of a basic type (`FooInt *p`, `GQuark *p`): rejected with '
+        '"only valid for pointer types" because _is_pointer_type looks at the alias target\'s own ctype',
+    'not-optional-treated-as-not-nullable':
+        '(not optional) is implemented as (not nullable): it clears nullable="1" (also an explicit (nullable)) and does '
+        'not take optional="1" away from an (optional)/(allow-none) out parameter',
+    'explicit-callback-annotation-overridden-by-autodetection':
+        'an explicit (scope X) / (closure X) / (destroy X) on a callback parameter is overwritten by '
+        '_pass3_callable_callbacks (later GDestroyNotify => destroy + scope notified; later gpointer *data => closure; '
+        'GDestroyNotify / GAsyncReadyCallback parameter => scope async)',
+    'crash:reference-to-parameter-without-index':
+        '(closure P)/(destroy P)/(array length=P) where P is the instance parameter or the trailing GError** that '
+        '_pass3_callable_throws pops: ValueError from get_parameter_index (pass 3 / the writer) instead of a warning',
+}
 
 
 def site_key(site):
@@ -1556,6 +1620,9 @@ class Evaluator(object):
 
     def fail(self, key, what, case, detail):
         key = finding_class(key)
+        merged = MERGED_KEYS.get(key)
+        if merged is not None and self.ctx.is_known(merged) is not None:
+            key = merged
         what += '\n%s %s(%s) -> %s' % (case['kind'], case['symbol'], ', '.join(
             '...' if p.get('ellipsis') else '%s%s%s %s' % ('const ' if p['type'].get('const') else '', p['type']['base'],
                                                           '*' * p['type'].get('depth', 0) +
@@ -1611,10 +1678,11 @@ class Evaluator(object):
                         if verdict[0] == 'valid:with-not-optional':
                             key = 'not-optional-clears-nullable:%s' % site.kind
                         if verdict[0] == 'valid:ref':
-                            h = heuristic_choice(case, site, name)
-                            pn = [attrs_of(p).get('name') for p in out['params']]
-                            if h is not None and h in pn and attrs_of(site.node).get(name) == str(pn.index(h)):
+                            k = autodetected_ref(out, site, name)
+                            if k is not None and attrs_of(out['params'][k]).get('name') != opts[0]:
                                 key = 'valid-overridden-by-autodetection:%s' % name
+                        if verdict[0] == 'valid:scope':
+                            key = scope_override_class(case, out, site, sites) or key
                         self.fail(key, '(%s) on %s %s [%s] is valid but the GIR does not show %s: %s\n%s'
                                   % (' '.join([name] + opts), site.kind, pname, skey, desc,
                                      json.dumps(site.node), comment), case, desc)
@@ -1809,7 +1877,11 @@ def run(ctx):
     ev = Evaluator(ctx, env, hooks, cnt)
     state = {'real': 0, 'compared': 0, 'disagree': [], 'nosnap': 0, 'snaperr': []}
     t0 = time.time()
-    budget = 62 if ctx.quick() else 640
+    # thorough: 12000 seeded cases (20x quick) + the ~10700 exhaustive table cases fit into the budget on an
+    # idle machine (~45 cases/s); the deadline only cuts the seeded stream short on a loaded one, so that
+    # proofs + leanchecker + search stay under 15 minutes
+    budget = 62 if ctx.quick() else 540
+    ctx.log('proofs done; search budget %ds' % budget)
     deadline = t0 + budget
     deep_deadline = t0 + budget * 0.85
     try:
@@ -1820,7 +1892,8 @@ def run(ctx):
             tcs = list(table_cases())
             n_table = process(ctx, ev, env, hooks, tcs, cnt, state, t0 + budget * 0.6, t0 + budget * 0.55)
         rng = ctx.rng
-        n_target = ctx.n(600, 30000)
+        ctx.log('corpus + table done: %d cases' % state['real'])
+        n_target = ctx.n(600, 12000)
         done = 0
         while done < n_target and time.time() < deadline:
             chunk = [gen_case(rng, p_valid=0.7 if rng.random() < 0.8 else 0.3) for _ in range(min(300, n_target - done))]
@@ -1836,6 +1909,7 @@ def run(ctx):
                 cnt.hit('search:mutant')
     finally:
         hooks.uninstall()
+    ctx.log('search done: %d cases through the real pipeline, %d compared with the model' % (state['real'], state['compared']))
     if state['snaperr']:
         ctx.broken.append('correspondence c01.run: a private function the snapshot relies on has changed (%s); '
                           'those cases were judged by the documentation oracle only' % '; '.join(state['snaperr']))
